@@ -111,10 +111,12 @@ Record shared := {
   smap : list (N * nat);     (* metric.series: hash -> handle id (index into hs) *)
   hs : list handle;          (* every handle ever published; the id is the position *)
   cnt : Z;                   (* seriesCount *)
-  drops : Z; unknown : Z; stales : Z   (* cardinalityDrops / unknownSeriesEmits / staleHandleEmits *)
+  drops : Z; unknown : Z; stales : Z;  (* cardinalityDrops / unknownSeriesEmits / staleHandleEmits *)
+  noop : Z   (* GHOST: weight of model-only no-op emissions (through a slot the client never obtained);
+                cannot happen in Go, where one needs a handle to call Add; always 0 in generated cases *)
 }.
 Definition shared0 : shared :=
-  {| smap := []; hs := []; cnt := 0; drops := 0; unknown := 0; stales := 0 |}.
+  {| smap := []; hs := []; cnt := 0; drops := 0; unknown := 0; stales := 0; noop := 0 |}.
 
 Inductive variant := Defective | Repaired.
 Record cfg := { c_kind : kind; c_cap : Z;       (* MaxSeriesPerMetric after defaulting; <= 0 means unbounded *)
@@ -186,23 +188,27 @@ Definition lookup (s : shared) (t : tuple) : option nat :=
   end.
 
 Definition set_cnt (s : shared) (c : Z) : shared :=
-  {| smap := smap s; hs := hs s; cnt := c; drops := drops s; unknown := unknown s; stales := stales s |}.
+  {| smap := smap s; hs := hs s; cnt := c; drops := drops s; unknown := unknown s; stales := stales s; noop := noop s |}.
 Definition set_map (s : shared) (m : list (N * nat)) : shared :=
-  {| smap := m; hs := hs s; cnt := cnt s; drops := drops s; unknown := unknown s; stales := stales s |}.
+  {| smap := m; hs := hs s; cnt := cnt s; drops := drops s; unknown := unknown s; stales := stales s; noop := noop s |}.
 Definition set_hs (s : shared) (l : list handle) : shared :=
-  {| smap := smap s; hs := l; cnt := cnt s; drops := drops s; unknown := unknown s; stales := stales s |}.
+  {| smap := smap s; hs := l; cnt := cnt s; drops := drops s; unknown := unknown s; stales := stales s; noop := noop s |}.
 Definition add_drops (s : shared) (w : Z) : shared :=
-  {| smap := smap s; hs := hs s; cnt := cnt s; drops := u64 (drops s + w); unknown := unknown s; stales := stales s |}.
+  {| smap := smap s; hs := hs s; cnt := cnt s; drops := u64 (drops s + w); unknown := unknown s; stales := stales s; noop := noop s |}.
 Definition add_unknown (s : shared) (w : Z) : shared :=
-  {| smap := smap s; hs := hs s; cnt := cnt s; drops := drops s; unknown := u64 (unknown s + w); stales := stales s |}.
+  {| smap := smap s; hs := hs s; cnt := cnt s; drops := drops s; unknown := u64 (unknown s + w); stales := stales s; noop := noop s |}.
 Definition add_stales (s : shared) (w : Z) : shared :=
-  {| smap := smap s; hs := hs s; cnt := cnt s; drops := drops s; unknown := unknown s; stales := u64 (stales s + w) |}.
+  {| smap := smap s; hs := hs s; cnt := cnt s; drops := drops s; unknown := unknown s; stales := u64 (stales s + w); noop := noop s |}.
+
+Definition add_noop (s : shared) (w : Z) : shared :=
+  {| smap := smap s; hs := hs s; cnt := cnt s; drops := drops s; unknown := unknown s; stales := stales s;
+     noop := u64 (noop s + w) |}.
 
 Definition publish (c : cfg) (s : shared) (t : tuple) : shared * nat :=
   let id := length (hs s) in
   ({| smap := map_store (smap s) (hash_tuple t) id;
       hs := hs s ++ [{| h_tuple := t; h_val := hval0 (S (length (c_buckets c))); h_stale := false; h_retired := false |}];
-      cnt := cnt s; drops := drops s; unknown := unknown s; stales := stales s |}, id).
+      cnt := cnt s; drops := drops s; unknown := unknown s; stales := stales s; noop := noop s |}, id).
 
 (* ------------------------------------------------------------------ thread steps *)
 Definition finish (th : thread) (r : res) : thread :=
@@ -230,16 +236,16 @@ Definition start_op (c : cfg) (s : shared) (th : thread) (o : op) : shared * thr
       end
   | OEmitH slot m d =>
       match nth_error (t_slots th) slot with
-      | None => (s, finish th ResU)                         (* no such handle: harness skips *)
+      | None => (add_noop s (weight (c_kind c) d), finish th ResU)     (* no such handle: harness skips *)
       | Some RTomb => (add_drops s (weight (c_kind c) d), finish th ResU)    (* isTombstone is immutable *)
       | Some (RH id) =>                                     (* h.stale.Load() *)
           match get_handle s id with
           | Some h => if h_stale h then (s, goto th (PES d)) else (s, goto th (PE1 id m d))
-          | None => (s, finish th ResU)
+          | None => (add_noop s (weight (c_kind c) d), finish th ResU)
           end
       end
   | OEmitT t m d =>
-      if negb (Nat.eqb (length t) (c_nlabels c)) then (s, finish th ResPanic) else
+      if negb (Nat.eqb (length t) (c_nlabels c)) then (add_noop s (weight (c_kind c) d), finish th ResPanic) else
       match lookup s t with                                (* series.Load + verify *)
       | Some id => (s, goto th (PE0 id m d))
       | None => (s, goto th (PTU d))
@@ -322,9 +328,13 @@ Definition tstep (c : cfg) (s : shared) (th : thread) : shared * thread :=
   | PE0 id m d =>
       match get_handle s id with
       | Some h => if h_stale h then (s, goto th (PES d)) else (s, goto th (PE1 id m d))
-      | None => (s, finish th ResU)
+      | None => (add_noop s (weight (c_kind c) d), finish th ResU)
       end
-  | PE1 id m d => (set_hs s (upd_nth (hs s) id (emit_into c m d)), finish th ResU)
+  | PE1 id m d =>
+      match get_handle s id with
+      | Some _ => (set_hs s (upd_nth (hs s) id (emit_into c m d)), finish th ResU)
+      | None => (add_noop s (weight (c_kind c) d), finish th ResU)
+      end
   | PES d => (add_stales s (weight (c_kind c) d), finish th ResU)
   | PTU d => (add_unknown s (weight (c_kind c) d), finish th ResU)
   end.
